@@ -1,7 +1,11 @@
 mod common;
+mod conform;
+mod refscheme;
+mod replay;
 mod data;
 mod numx;
 mod palette;
+mod pinned;
 mod props;
 use common::*;
 use std::time::Instant;
@@ -22,6 +26,23 @@ fn main() {
         Some("thorough") => Tier::Thorough,
         _ => Tier::Quick,
     };
+    if args[0] == "--validate-model" {
+        let v = pinned::validate_model();
+        println!("sessions={} agreeing_forms={} excluded={} mismatches={}", v.sessions, v.forms_agreeing, v.forms_excluded, v.mismatches.len());
+        for m in &v.mismatches {
+            println!("  MISMATCH {}", m);
+        }
+        std::process::exit(0);
+    }
+    if args[0] == "--replay" {
+        std::process::exit(replay::replay_file(args.get(1).map(|s| s.as_str()).unwrap_or("")));
+    }
+    if args[0] == "--session" {
+        for l in replay::run_text(args.get(1).map(|s| s.as_str()).unwrap_or(""), true) {
+            println!("{}", l);
+        }
+        std::process::exit(0);
+    }
     let mut prop: Option<String> = None;
     let mut i = 0;
     while i < args.len() {
@@ -43,6 +64,7 @@ fn main() {
     let prop = prop.unwrap_or_else(|| usage());
     let mk = |p: &'static str| Ctx { prop: p, tier, seed, start: Instant::now() };
     let code = match prop.as_str() {
+        "C01" => props::c01::run(&mk("C01")),
         "C08" => props::c08::run(&mk("C08")),
         "C09" => props::c09::run(&mk("C09")),
         "C10" => props::c10::run(&mk("C10")),
